@@ -7,7 +7,7 @@ C20 at the access table extracted from the current source (`Facts.accessTable`,
 `policy` is the complete, explicit list of everything that is NOT justified by a
 common mutex: publication rules (data, each with the happens-before argument it
 stands for), setup-phase methods, and the acknowledged races (known findings).
-`table_ok_partial` re-checks BY `decide` over the whole table, on every run, that
+`table_ok` re-checks BY `decide` over the whole table, on every run, that
 every conflicting pair of rows is justified by a common mutex, by atomics, by
 the constructor/setup phase or by a rule both rows conform to — except the pairs
 listed in `policy.known`.  A new unlocked access, a dropped Lock, a write moved
@@ -46,28 +46,20 @@ def rules : List Rule := [
 def setup : List Nat := [M_GRPCServer_Init]
 
 /-- Acknowledged races (known_findings.jsonl, property C20). -/
-def known : List Known := [
-  -- `Stop`/`GracefulStop` test and nil `s.broker` without any lock; two `Client.Kill` calls (or Kill + test-mode
-  -- cancellation) make the plugin run two `Stop` concurrently                race:GRPCServer.broker:Stop/Stop
-  ⟨F_GRPCServer_broker, [M_GRPCServer_Stop, M_GRPCServer_GracefulStop]⟩,
-  -- `NegotiatedVersion()` reads without `c.l` while `Start` (under `c.l`) writes   race:Client.negotiatedVersion:NegotiatedVersion/Start
-  ⟨F_Client_negotiatedVersion, [M_Client_NegotiatedVersion, M_Client_Start, M_Client_reattach]⟩
-]
+def known : List Known := []      -- none: the three races found by this check were fixed (known_findings.jsonl: fixed)
 
 def policy : Policy := ⟨rules, setup, known⟩
 
-/-- **The whole extracted table satisfies the lockset premise**, except the two
-acknowledged fields (`_partial`: `GRPCServer.broker` among Stop/GracefulStop and
-`Client.negotiatedVersion` between NegotiatedVersion and Start are excluded — they
-are genuine races, reproduced by the race detector run of this check; the exclusion is
-by field AND method set, so any other unlocked access to these fields still fails). -/
-theorem table_ok_partial : checkTable policy accessTable = true := by decide +kernel
+/-- **The whole extracted table satisfies the lockset premise**, with no
+acknowledged exception (the races this check found on `GRPCServer.broker` and
+`Client.negotiatedVersion` have been fixed in the source). -/
+theorem table_ok : checkTable policy accessTable = true := by decide +kernel
 
-/-- what `table_ok_partial` means row by row -/
+/-- what `table_ok` means row by row -/
 theorem table_pairs_justified (a : Access) (ha : a ∈ accessTable) (b : Access) (hb : b ∈ accessTable)
     (hc : conflict a.kind b.kind = true) :
     pairOK policy a b = true ∨ pairOK policy b a = true ∨ knownCovers policy a b = true ∨ knownCovers policy b a = true :=
-  checkTable_sound policy accessTable table_ok_partial a ha b hb hc
+  checkTable_sound policy accessTable table_ok a ha b hb hc
 
 /-- the shared mutable fields the property is about -/
 def coreFields : List Nat :=
